@@ -48,7 +48,7 @@ void harness_clock(void) { U32 id = nd32(), rp, r; clockid_t want; guest_init();
     else V_ASSERT((int)r == spec_errno(errno), "error code is the WASI translation of errno");
     V_WITNESS("end"); }
 void harness_clock_monotonic(void) { U32 rp1, rp2, r1, r2; guest_init(); table_init(); rp1 = gptr(8); rp2 = gptr(8); V_ASSUME(rp1 + 8 <= rp2 || rp2 + 8 <= rp1);
-    r1 = wasi_snapshot_preview1__clock_time_get(0, 1, 0, rp1); r2 = wasi_unstable__clock_time_get(0, 1, 0, rp2);
+    r1 = wasi_snapshot_preview1__clock_time_get(0, 1, nd64(), rp1); r2 = wasi_unstable__clock_time_get(0, 1, nd64(), rp2);   /* any precision arguments */
     if (r1 == 0 && r2 == 0) { V_ASSERT(gle(rp2, 8) >= gle(rp1, 8), "monotonic clock is non-decreasing across calls"); V_WITNESS("both ok"); }
     V_WITNESS("end"); }
 void harness_clock_res(void) { U32 id = nd32(), rp, r; guest_init(); table_init(); nlog = 0; rp = gptr(8);
